@@ -36,7 +36,7 @@ def compare(ctx, what, inp, expected, got):
 def run(ctx):
     quick = ctx.tier == "quick"
     g = gen()
-    k = {"MaxSort": 4 if quick else 6, "MaxHay": 4 if quick else 6, "MaxNeedle": 2 if quick else 3, "MaxMulti": 3 if quick else 4,
+    k = {"MaxSort": 4 if quick else 7, "MaxHay": 4 if quick else 8, "MaxNeedle": 2 if quick else 3, "MaxMulti": 3 if quick else 5,
          "MaxN": 9, "MaxB": 10}
     consts = model.constants_block(k)
     ctx.rule = ("TLC enumerates the complete bounded domain of each helper (all 3999 integers; all sequences over a small alphabet up to "
@@ -121,7 +121,7 @@ def run(ctx):
 
     # second pass: larger random inputs, the definition evaluated by TLC on exactly those
     rnd = random.Random(ctx.seed * 7919 + 19)
-    ins = [{"s": [rnd.randint(0, 5) for _ in range(rnd.randint(6, 14))], "rev": rnd.randint(0, 1)} for _ in range(100 if quick else 1000)]
+    ins = [{"s": [rnd.randint(0, 5) for _ in range(rnd.randint(6, 14))], "rev": rnd.randint(0, 1)} for _ in range(100 if quick else 5000)]
     ctx.exhaustive = True
     for c, exp in zip(ins, cases.evaluate(SPEC, consts, ins, ctx, "arg_sort_big", "DefSort")):
         compare(ctx, "arg_sort", c, exp, safe(lambda: g.arg_sort(c["s"], reverse=bool(c["rev"]))))
